@@ -8,10 +8,12 @@ use text_utils::tokenization::{train_bpe, MergeOps};
 use text_utils::unicode::Normalization;
 use text_utils::utils::SerializeMsgPack;
 
-const LETTERS: [&str; 4] = ["a", "b", "c", "d"];
+const LETTERS: [&str; 5] = ["a", "b", "c", "d", "e"];
 /// letters that NFKC rewrites (ligature fi -> f i, fullwidth f -> f) next to their targets: without a requested
 /// normalisation the corpus must be taken as it is
-const LETTERS_NFKC: [&str; 4] = ["\u{FB01}", "i", "\u{FF46}", "f"];
+// slot 5: the spacing acute accent, whose NFKC form is a blank followed by the combining acute (the word is cleaned first,
+// so with normalisation it falls into two words)
+const LETTERS_NFKC: [&str; 5] = ["\u{FB01}", "i", "\u{FF46}", "f", "\u{00B4}"];
 
 pub fn exec(case: &Value) -> Vec<Value> {
     let words: Vec<String> = case["words"]
@@ -73,7 +75,14 @@ pub fn exec(case: &Value) -> Vec<Value> {
                 text.push_str(kinds[b % kinds.len()]);
                 text.push('\n');
             }
+            let mut bytes: Vec<u8> = vec![];
             for (k, l) in blocks[j].iter().enumerate() {
+                // `bad_utf8`: a line that is not valid UTF-8 between the lines (it is skipped, the lines behind it still count)
+                if get_bool(case, "bad_utf8") && max_lines == 0 && k == 1 {
+                    bytes.extend_from_slice(text.as_bytes());
+                    text.clear();
+                    bytes.extend_from_slice(b"caf\xff \xfe\n");
+                }
                 text.push_str(l);
                 text.push('\n');
                 if blanks > 0 && k % 2 == 0 {
@@ -81,7 +90,8 @@ pub fn exec(case: &Value) -> Vec<Value> {
                     text.push('\n');
                 }
             }
-            std::fs::write(p, text).unwrap();
+            bytes.extend_from_slice(text.as_bytes());
+            std::fs::write(p, bytes).unwrap();
         }
         // vocab_size must be a multiple of 64: 320 - 256 - (64 - m) = m merges
         let norm = if with_norm { Some(Normalization::NFKC) } else { None };
@@ -132,6 +142,7 @@ pub fn gen(seed: u64, n: usize) -> Vec<Value> {
             json!({"words": words, "freqs": freqs, "num_merges": rng.random_range(0..=24), "per_line": rng.random_range(1..=3),
                    "seed": rng.random::<u32>(), "threads": [th], "norm": rng.random_bool(0.5), "alpha": alpha,
                    "vs": if rng.random_bool(0.1) { json!([[256, 1], [256, 4], [320, 65], [0, 4], [192, 0], [320, 64], [320, 61], [64, 1]][rng.random_range(0..8)]) } else { Value::Null },
+                   "bad_utf8": rng.random_bool(0.15),
                    "files": rng.random_range(1..=3), "max_lines": max_lines, "blanks": if rng.random_bool(0.3) { rng.random_range(1..=5) } else { 0 }})
         })
         .collect()
